@@ -221,7 +221,7 @@ class FlatShapes:
                 steps.append("take %d" % r.randint(1, 3))
             elif k < 0.52:
                 items.append("PWin")
-                steps.append("derive {%s = %s %s}" % (self.fresh(), r.choice(["lag 1", "lead 1", "sum", "min"]), r.choice(avail[1:])))
+                steps.append("derive {%s = %s %s}" % (self.fresh(), r.choice(["lag 1", "lead 1", "sum", "min"]), r.choice(avail[1:] or avail)))
             elif k < 0.64:
                 items.append("POther")
                 steps.append(r.choice(["filter id != 99", "derive {%s = id + 1}" % self.fresh(), "select {%s}" % ", ".join(avail)]))
